@@ -46,3 +46,26 @@ class Sampler:
     def want(self):
         self.n += 1
         return self.n <= self.first or self.rng.randrange(self.every) == 0
+
+def expand(chars, m=None, nat=None):
+    """string elements -> code points, expanding opaque number tokens: Dec by the value's decimal spelling, Flt through the native formatter"""
+    out = []
+    for c in chars:
+        if isinstance(c, int): out.append(c)
+        elif isinstance(c, (tuple, list)):
+            kind = c[0]
+            if kind == 'Dec':
+                v = c[1] if isinstance(c[1], int) else model_int(m, c[1]); ty = c[2]
+                w = {'i8': 8, 'i16': 16, 'i32': 32, 'i64': 64, 'isize': 64}.get(ty)
+                if w and v >= (1 << (w - 1)): v -= (1 << w)
+                out.extend(ord(ch) for ch in str(v))
+            elif kind == 'Flt':
+                p = c[1]
+                if isinstance(p, tuple) and p[0] == 'float': p = p[1]
+                bits = p if isinstance(p, int) else model_int(m, p)
+                out.extend(ord(ch) for ch in nat.ask({'op': 'fmt_float', 'bits': bits, 'ty': c[2]})['s'])
+            elif kind == 'Bool':
+                out.extend(ord(ch) for ch in ('true' if model_int(m, c[1]) else 'false'))
+            else: out.append(list(c))
+        else: out.append(model_int(m, c))
+    return out
